@@ -130,6 +130,14 @@ def generate(rng, tier):
             ops.append({"op": "advance", "us": us})
         else:
             ops.append(scen.cmd("flatten", "@R", "@S/out"))
+    files_ = gen.tree_files(tree)
+    if files_ and rng.random() < 0.15:
+        # a rename recorded with -dr (the record carries a previous path), then flatten
+        f_ = rng.choice(files_)
+        fm_ = gen.fmt_args(gen.pick_formats(rng, 1, 1))
+        ops += [scen.cmd("create", "@R", *fm_), {"op": "advance", "us": 1_000_000},
+                {"op": "rename", "src": f_, "dst": f_ + "_take2", "fault": "rename_file"},
+                scen.cmd("create", "@R", "-dr", *fm_), {"op": "advance", "us": 1_000_000}, scen.cmd("flatten", "@R", "@S/out")]
     if rng.random() < 0.4:
         ops.append(scen.cmd("flatten", "@R", "@S/out"))
     return {"world": env, "ops": ops}
@@ -241,13 +249,23 @@ def monitor(ctx, st):
         else:
             # flatten: hash dates are carried over from the source history and must keep their instants
             src = {}
+            src_sizes = {}
             for hr in observe.find_histories(w.root)[:1]:
                 hv = observe.HistoryView(hr)
                 for num, _, sm in hv.generations:
                     for r in sm["files"]:
+                        if r["size"] is not None:
+                            src_sizes.setdefault(r["path"], set()).add(r["size"])
                         for e in r["entries"]:
                             src.setdefault((r["path"], e["fmt"], e["digest"]), parse_iso(e["hashdate"]))
             for r in m["files"]:
+                # the packing list states a size for every file the source history states one for, and one of those
+                ctx.evaluations += 1
+                if r["path"] in src_sizes and r["size"] not in src_sizes[r["path"]]:
+                    ctx.violate({"kind": "wrong-size", "cause": "missing" if r["size"] is None else "value", "size_class": "flatten"},
+                                f"{os.path.basename(rel)} (flatten): {r['path']!r} size attribute {r['size']!r}, the history records "
+                                f"{sorted(src_sizes[r['path']])}")
+                    return
                 for e in r["entries"]:
                     want = src.get((r["path"], e["fmt"], e["digest"]))
                     if want is None:
